@@ -45,10 +45,9 @@ Proof.
           LResponsePlace [0] [PSuccess 0 (Some 7001) 0]], 0.
   vm_compute. reflexivity.
 Qed.
-(* ... and a control refusing a request marks the live order VIOLATION (F-C02-1): Executable -> Violation is not a lifecycle transition *)
-Theorem C03_refusal_marks_live_order_refuted :
-  exists es n, option_map lo_log (oget n (ls_orders (lrun (lstate0 COMPLETE_STATUS) es))) = Some [SPending; SExecutable; SViolation].
-Proof. exists [LPlace 0 0 0 101 500 200 false; LResponsePlace [0] [PSuccess 0 (Some 7001) 0]; LRefused 0], 0. vm_compute. reflexivity. Qed.
+(* a control refusing a request leaves the placed order alone (since the repair of F-C02-1, fix: commit 2b78b6a) *)
+Theorem C03_refusal_leaves_order : forall s n, lstep s (LRefused n) = s.
+Proof. reflexivity. Qed.
 
 (* non-vacuity *)
 Example C03_example : let s := lrun (lstate0 COMPLETE_STATUS) [LPlace 0 0 0 101 500 200 false; LResponsePlace [0] [PSuccess 0 (Some 7001) 0]; LReq 0 0 0] in
